@@ -146,10 +146,12 @@ def run(ctx, chk):
                      f"{HC}.get('value', 0))",
         }
         got = {k: cn.show(v) for k, v in kw.items()}
-        want = {k: respell(w) for k, w in want.items()}
+        want = {k: (respell(w),) for k, w in want.items()}
+        # == is symmetric: either operand order is the same flag
+        want["os"] += (respell(f"{{each(Y['os']): {HC}['os']==each(Y['os']) for each(Y['os'])}}"),)
         for k, w in want.items():
             chk.ob("C17.transform", f"Host.{k} is built from the host's configuration as "
-                   f"documented", got.get(k) == w, f"Host({k}={got.get(k)})", ev.loc)
+                   f"documented", got.get(k) in w, f"Host({k}={got.get(k)})", ev.loc)
         extra = set(got) - set(want)
         chk.ob("C17.transform", "Host(...) receives nothing else from the loader", not extra,
                str({k: got[k] for k in extra}), ev.loc, nontrivial=False)
